@@ -290,6 +290,49 @@ def arena_immut(repo, res, tier, rule="ARENA-IMMUT"):
         res.check(len(ch) >= 2, "CONTROL", "CONTROL:arena-immut", f"control: {len(ch)} in-place arena edits flagged ({sorted(set(c.split('::')[-1] for _, c, *_ in ch))})", "")
 
 
+def descr_scope(repo, res, rule="DESCRSCOPE"):
+    """`( a | b ) "d"` labels the literals INSIDE the group and nothing after it: in do_distribute_descriptions the group's description
+    travels down in a slot of its own (`&mut Some(descr)` built in the DistributiveDescription arm), never in the slot the caller passed
+    in; and the only thing ever stored into the caller's slot is `None` (a description is spent, never planted).  Otherwise what the group
+    does not use up is still pending when the enclosing sequence goes on, and lands on the next literal."""
+    fq = "check::do_distribute_descriptions"
+    fn = repo.fn(fq)
+    if fn is None:
+        res.undecided(rule, f"{rule}:{fq}", "function not found")
+        return
+    envs = A.collect_envs(fn)
+    slot = next((i for i, prm in enumerate(fn.params) if "Option<Ustr>" in "".join((prm.get("ty") or "").split()) and "mut" in (prm.get("ty") or "")), None)
+    if slot is None:
+        res.undecided(rule, f"{rule}:{fq}:slot", "no `&mut Option<Ustr>` parameter", fn.loc())
+        return
+    arm, m = RPL.arm_for(repo, fn, "Expr", "DistributiveDescription")
+    ok, why = False, "no DistributiveDescription arm"
+    if arm is not None:
+        calls = list(P.find_calls(arm["body"], names={fn.name}))
+        ok = bool(calls)
+        why = f"{len(calls)} recursive call(s) in the arm"
+        for c in calls:
+            a = A.resolve(c["args"][slot], envs.get(id(c))) if slot < len(c["args"]) else ("none",)
+            while a[0] in ("ref", "deref"):
+                a = a[1]
+            fresh = a[0] == "call" and P.last(a[1]) == "Some" and a[2] and a[2][0][0] == "bind" and P.last(a[2][0][1]) == "DistributiveDescription" and a[2][0][2] == "descr"
+            ok = ok and fresh
+            why = f"the group's description goes down as {A.show(a)[:70]}" + ("" if fresh else ": not a slot of its own (`&mut Some(descr)`) -- what the group leaves unused stays pending for what follows the group")
+    res.check(ok, rule, f"{rule}:{fq}:group-has-its-own-slot", why, f"{fn.file}:{arm['l']}" if arm else fn.loc())
+    pname = fn.params[slot]["name"]
+    planted = []
+    for asg in A.walk(fn.body):
+        if asg["k"] == "Assign":
+            l = asg["left"]
+            while l["k"] in ("Unary", "Paren"):
+                l = l["expr"]
+            if l["k"] == "Path" and l["path"] == pname:
+                r = asg["right"]
+                if not (r["k"] == "Path" and r["path"].split("::")[-1] == "None"):
+                    planted.append(asg["l"])
+    res.check(not planted, rule, f"{rule}:{fq}:caller-slot-only-spent", "the caller's pending description is only ever cleared" if not planted else f"a description is stored INTO the caller's slot at line(s) {planted}", fn.loc())
+
+
 def nullscan(repo, res, rule="NULLSCAN"):
     """Dragon book 3.9: firstpos / lastpos / followpos of a concatenation scan the children and stop at the first child that is NOT
     nullable -- the child whose positions were just taken.  Relational form: in every loop of the position-set functions that
@@ -359,6 +402,7 @@ def run(repo, res, tier):
     levelfield(repo, res)
     core_skips(repo, res)
     res.floor("NULLSCAN", nullscan(repo, res), 2)
+    descr_scope(repo, res)
     arena_immut(repo, res, tier)
     postorder(repo, res)
     n_tc = common.run_traversals(repo, res, flows=flows_table())
